@@ -29,9 +29,21 @@
 (* Actions: AddClosed(i,pnl,cost,t) InstrumentState::update_from_trade ->  *)
 (*                                 TearSheetGenerator::update_from_position*)
 (*                                 (t: exit time, seconds since the start  *)
-(*                                 of the instrument's session)            *)
-(*          AddBalance(a,total)    AssetState::update_from_balance ->      *)
+(*                                 of the instrument's session - ANY       *)
+(*                                 integer: positions need not be delivered *)
+(*                                 in the order of their exit times, see   *)
+(*                                 "late exits" below)                     *)
+(*          AddBalance(a,total,free) AssetState::update_from_balance ->    *)
 (*                                 TearSheetAssetGenerator::update_from_balance *)
+(*                                 an ACCEPTED balance snapshot (exchange   *)
+(*                                 times do not decrease: freshness is C09's *)
+(*                                 subject).  total and free move            *)
+(*                                 independently (a resting order locks     *)
+(*                                 funds: free falls, total stays; a cancel *)
+(*                                 releases them; a fill moves the total);  *)
+(*                                 EVERY accepted snapshot is the asset's   *)
+(*                                 latest balance and a point of its equity *)
+(*                                 curve - also when the total repeats      *)
 (*          Generate(rf,iv)        TradingSummaryGenerator::generate(iv) / *)
 (*                                 TearSheetGenerator::generate(rf, iv):   *)
 (*                                 risk-free return rf, target interval iv *)
@@ -55,12 +67,30 @@
 (* quantity_abs_max > 0 and exit time t; its return is pnl / cost          *)
 (* (engine/state/position.rs calculate_pnl_return).                        *)
 (*                                                                         *)
-(* PnL, win rate, profit factor, the dataset statistics: nothing is left   *)
-(* nondeterministic, they are functions of the history.  The ratio figures *)
-(* are functions of the history too, except at the three points listed in  *)
-(* the header of the section "ratio figures".  Out of scope (not           *)
-(* constrained): the drawdown fields of the sheets (C18, Drawdown.tla),    *)
-(* recurrence_relation_m itself.                                           *)
+(* LATE EXITS.  C16 speaks of ANY sequence of closed positions: a position  *)
+(* may be delivered after one whose exit time is later (fills redelivered   *)
+(* after a reconnect, an exit stamped a few ms before one already processed,*)
+(* recorded positions fed out of order; an exit may even pre-date the start *)
+(* of the session, t < 0).  k is a LATE exit of h iff some h[j], j < k, has *)
+(* h[j].t > h[k].t (IsLate).  The ORDER-FREE figures - PnL, the returns     *)
+(* summaries' count / sum / mean / variance (total and losing returns), win *)
+(* rate, profit factor and their no-positions / no-wins / no-losses         *)
+(* conventions - are functions of the MULTISET of (pnl, cost): they never   *)
+(* read an exit time and must hold whatever the delivery order and whatever *)
+(* the times (OrderFreeC16, OrderFreeReturns, TimeFreeC16, OrderFreeRatios). *)
+(* The bounded models take NEGATIVE steps of the exit time.  Only two things *)
+(* depend on time or order; they are defined, with their open points, in    *)
+(* the section "ratio figures" (points 4 and 5): the END of the trading     *)
+(* period and the PnL curve under Calmar's drawdown.                        *)
+(*                                                                         *)
+(* PnL, win rate, profit factor, the returns summaries, the dataset         *)
+(* statistics: nothing is left nondeterministic, they are functions of the  *)
+(* history.  The ratio figures are functions of the history too, except at  *)
+(* the five points listed in the header of the section "ratio figures"      *)
+(* (points 4 and 5 only for histories with a late exit).  Out of scope (not *)
+(* constrained): the drawdown fields of the sheets, their start / end times *)
+(* included (C18, Drawdown.tla - whose curves have non-decreasing times),   *)
+(* recurrence_relation_m itself.                                            *)
 EXTENDS Integers, Sequences, FiniteSets, TLC, Rational
 
 CONSTANTS
@@ -68,19 +98,20 @@ CONSTANTS
   Asset,      \* asset keys (strings)
   PnLs,       \* realised PnL of a closed position (integers)
   Costs,      \* entry cost price*quantity of a closed position (integers > 0)
-  Bals,       \* balance totals (integers)
+  Bals,       \* balance totals (integers > 0); the free part of a snapshot: a value of Bals too, not above the total
   Vals,       \* dataset values (integers; the harness concretises k * 10^e)
   MaxClosed,  \* bound on closed positions (all instruments together)
   MaxBal,     \* bound on balance updates (all assets together)
   MaxVals,    \* bound on dataset length
-  Gaps,       \* increments of an instrument's exit time (seconds, integers >= 0)
+  Gaps,       \* steps of an instrument's exit time from the exit delivered before it (seconds,
+              \* integers of EITHER sign: a negative step is a late exit)
   RFs,        \* risk-free returns (rationals)
   Ivs         \* target intervals of a generated sheet (names, a subset of DOMAIN IvLen)
 
 VARIABLES
   closed,     \* [Instr -> Seq([pnl, cost, t])] history of closed positions (t: exit time)
   acc,        \* [Instr -> accumulator]        running PnLReturns
-  bal,        \* [Asset -> Seq(Int)]           history of balance totals
+  bal,        \* [Asset -> Seq([total, free])] history of accepted balance snapshots
   out,        \* <<>> or <<summary>>           what the last call returned, if it was Generate
   vals,       \* Seq(Int)                      dataset history
   wf,         \* running Welford accumulator
@@ -111,7 +142,16 @@ SomeR(r) == [has |-> TRUE, v |-> r]
 (* C16 - the tear sheet of a history h of closed positions                  *)
 Pos(pnl, cost, t) == [pnl |-> pnl, cost |-> cost, t |-> t]
 Ret(c)            == Frac(c.pnl, c.cost)
-LastT(h)          == IF Len(h) = 0 THEN 0 ELSE h[Len(h)].t     \* time of the latest exit (0 = session start)
+LastT(h)          == IF Len(h) = 0 THEN 0 ELSE h[Len(h)].t     \* exit time of the position delivered LAST (0 = session start)
+\* the LATEST exit time delivered (the same as LastT when no position was delivered late)
+MaxT(h)           == IF Len(h) = 0 THEN 0
+                     ELSE CHOOSE x \in {h[k].t : k \in Idx(h)} : \A k \in Idx(h) : h[k].t <= x
+\* late exits: delivered after a position whose exit time is later
+IsLate(h, k)      == \E j \in 1..(k - 1) : h[j].t > h[k].t
+HasLate(h)        == \E k \in Idx(h) : IsLate(h, k)
+\* the history in the order of the exit times (equal times: in the order delivered)
+Rank(h, k)        == Cardinality({j \in Idx(h) : h[j].t < h[k].t \/ (h[j].t = h[k].t /\ j <= k)})
+Chrono(h)         == [p \in Idx(h) |-> h[CHOOSE k \in Idx(h) : Rank(h, k) = p]]
 
 WinIdx(h)  == {k \in Idx(h) : ~IsNeg(Ret(h[k]))}     \* return not negative
 GainIdx(h) == {k \in Idx(h) : IsPos(Ret(h[k]))}
@@ -135,8 +175,23 @@ ProfitFactor(h) ==
 
 TearSheet(h) == [pnl |-> R(PnL(h)), win_rate |-> WinRate(h), profit_factor |-> ProfitFactor(h)]
 
-\* the asset sheet of a balance history (drawdown fields: Drawdown.tla / C18)
-AssetSheet(b) == IF b = <<>> THEN [has |-> FALSE, total |-> 0] ELSE [has |-> TRUE, total |-> b[Len(b)]]
+\* the returns summaries the generator keeps beside the sheet (PnLReturns.total / .losses: public, documented
+\* as the summaries of the returns of ALL / of the LOSING closed positions): count, sum, mean
+\* (their variances: VarRet / LossVarRet of the section "ratio figures")
+RetSum(h, I)  == RSumOver([k \in Idx(h) |-> Ret(h[k])], I)
+ReturnsOf(h)  == LET n == Len(h)  l == Cardinality(LossIdx(h))
+                 IN [count |-> n, sum |-> RetSum(h, Idx(h)),
+                     mean  |-> IF n = 0 THEN Zero ELSE Div(RetSum(h, Idx(h)), R(n)),
+                     losses_count |-> l, losses_sum |-> RetSum(h, LossIdx(h)),
+                     losses_mean  |-> IF l = 0 THEN Zero ELSE Div(RetSum(h, LossIdx(h)), R(l))]
+
+\* the asset sheet of a history of accepted balance snapshots: balance_end is the LAST snapshot's
+\* (total, free) pair; `points`: how many points the equity curve has - its last point is the last
+\* snapshot, whether or not the total moved (drawdown fields: Drawdown.tla / C18)
+BalOf(total, free) == [total |-> total, free |-> free]
+BalPairs      == {x \in Bals \X Bals : x[2] <= x[1]}
+AssetSheet(b) == IF b = <<>> THEN [has |-> FALSE, total |-> 0, free |-> 0, points |-> 0]
+                 ELSE [has |-> TRUE, total |-> b[Len(b)].total, free |-> b[Len(b)].free, points |-> Len(b)]
 
 SummaryOf(cl, bl) == [instruments |-> [i \in Instr |-> TearSheet(cl[i])],
                       assets      |-> [a \in Asset |-> AssetSheet(bl[a])]]
@@ -186,7 +241,7 @@ WfVar(w) == IF w.n < 1 THEN Zero ELSE Div(w.m, R(w.n))               \* calculat
 (*              the cumulative PnL curve: the reference decomposition of    *)
 (*              Drawdown.tla (C18), instantiated here                       *)
 (*   period   = max(time of the LATEST exit - session start, 1 s); 1 s for  *)
-(*              an empty history                                            *)
+(*              an empty history (with late exits: open point 4)            *)
 (*   excess   = mean - rf                                                   *)
 (*   rate of return   = mean                          x  target / period    *)
 (*   Sharpe  ratio    = excess / sqrt(var)            x  sqrt(target/period)*)
@@ -230,9 +285,30 @@ WfVar(w) == IF w.n < 1 THEN Zero ELSE Div(w.m, R(w.n))               \* calculat
 (*     (C18 speaks of curves with positive peaks only): k = "any".  A peak  *)
 (*     <= 0 that is not followed by a lower point has depth 0 on every      *)
 (*     reading and is constrained.                                          *)
-(* Assumed: exit times of one instrument are whole seconds and do not       *)
-(* decrease (the latest exit is the last one reported); risk-free returns   *)
-(* and returns are finite decimals.                                         *)
+(*  4. the END of the trading period when a position was delivered LATE.    *)
+(*     The generator's field is documented as "Trading session end time     *)
+(*     defined by the Engine clock".  The code stamps it with the exit time  *)
+(*     of the position delivered LAST (`time_engine_now = position.         *)
+(*     time_exit`: it moves BACK on a late exit); the engine clock the       *)
+(*     comment names never moves back, which reads as the LATEST exit        *)
+(*     delivered.  The documents do not decide: the period of a generated    *)
+(*     sheet ends at one of the two (reading p = "last" | "max").  They      *)
+(*     coincide whenever the position delivered last is also the latest -    *)
+(*     in particular in every history without a late exit, where nothing is  *)
+(*     open.  An exit that pre-dates the session start (t < 0) gives the     *)
+(*     minimum period of 1 s on both readings.                               *)
+(*  5. the PnL curve under Calmar's drawdown when a position was delivered   *)
+(*     LATE: the cumulative PnL in the order DELIVERED (what the code's      *)
+(*     running drawdown generator sees) or in the order of the EXIT TIMES    *)
+(*     (the chronological curve; equal times in the order delivered) -       *)
+(*     reading c = "delivered" | "chrono".  Calmar is the only figure that   *)
+(*     depends on the path; the two curves are the same sequence unless      *)
+(*     there is a late exit.                                                 *)
+(*     ONE reading (p, c) per generated sheet: its four figures agree on     *)
+(*     the period.  A history without a late exit has exactly one sheet      *)
+(*     (MonotoneDetermined): nothing of points 4 and 5 weakens it.           *)
+(* Assumed: exit times are whole seconds; risk-free returns and returns are  *)
+(* finite decimals.                                                          *)
 
 \* the target intervals (statistic/time.rs), in seconds; Hours2 and Days500 stand for the
 \* custom TimeDelta intervals the binding uses
@@ -263,7 +339,8 @@ MeanRet(h)    == IF Len(h) = 0 THEN Zero ELSE DivX(MeanOf(RetInts(h)), R(CostLCM
 VarRet(h)     == IF Len(h) = 0 THEN Zero ELSE DivX(VarOf(RetInts(h)), R(CostLCM(h) * CostLCM(h)))
 LossVarRet(h) == LET v == NegOf(RetInts(h))
                  IN IF Len(v) = 0 THEN Zero ELSE DivX(VarOf(v), R(CostLCM(h) * CostLCM(h)))
-Period(h)     == IF LastT(h) > 1 THEN LastT(h) ELSE 1
+PeriodOf(t)   == IF t > 1 THEN t ELSE 1
+Period(h)     == PeriodOf(LastT(h))          \* (the reading of the code: open point 4)
 
 \* the cumulative PnL curve and its drawdowns: the reference decomposition of Drawdown.tla
 DDm == INSTANCE Drawdown WITH Values <- {}, NegMag <- {}, Gaps <- {}, MaxLen <- 0, MaxResets <- 0,
@@ -318,11 +395,26 @@ ScaleFig(f, cur, target) ==
 \* RateOfReturn::scale: linear
 ScaleRor(f, cur, target) == [f EXCEPT !.fac = MulX(@, Frac(target, cur))]
 
-\* what the four figures depend on, of the history h (evaluated once per history: TLC does not
-\* remember the value of an operator application)
-Base(h) == LET c == Curve(h)  u == UndefinedDD(c)
-           IN [n |-> Len(h), mean |-> MeanRet(h), var |-> VarRet(h), lossvar |-> LossVarRet(h),
-               undef |-> u, maxdd |-> IF u THEN Zero ELSE MaxDepth(c), period |-> Period(h)]
+\* ---- the readings of open points 4 and 5
+Readings    == [p : {"last", "max"}, c : {"delivered", "chrono"}]
+CodeReading == [p |-> "last", c |-> "delivered"]              \* what the code does today
+HistR(h, rd)   == IF rd.c = "chrono" THEN Chrono(h) ELSE h
+PeriodR(h, rd) == PeriodOf(IF rd.p = "last" THEN LastT(h) ELSE MaxT(h))
+DDOf(c)     == LET u == UndefinedDD(c) IN [undef |-> u, maxdd |-> IF u THEN Zero ELSE MaxDepth(c)]
+
+\* what the four figures depend on, of the history h, on every reading (evaluated once per history: TLC
+\* does not remember the value of an operator application)
+BaseAll(h) == LET late == HasLate(h)  dD == DDOf(Curve(h))
+              IN [n |-> Len(h), mean |-> MeanRet(h), var |-> VarRet(h), lossvar |-> LossVarRet(h), late |-> late,
+                  ddD |-> dD, ddC |-> IF late THEN DDOf(Curve(Chrono(h))) ELSE dD,
+                  pL |-> PeriodOf(LastT(h)), pM |-> PeriodOf(MaxT(h))]
+\* ... on ONE reading
+ViewOf(B, rd) == LET d == IF rd.c = "chrono" THEN B.ddC ELSE B.ddD
+               IN [n |-> B.n, mean |-> B.mean, var |-> B.var, lossvar |-> B.lossvar,
+                   undef |-> d.undef, maxdd |-> d.maxdd, period |-> IF rd.p = "last" THEN B.pL ELSE B.pM]
+\* the readings that can differ: all four with a late exit in the history, otherwise one (MonotoneDetermined)
+ReadingsOf(B) == IF B.late THEN Readings ELSE {CodeReading}
+Base(h) == ViewOf(BaseAll(h), CodeReading)
 \* the four ratio figures of the sheet generate(rf, iv) reports for a history with base b
 SheetOfBase(b, rf, iv) ==
   LET T == IvLen[iv]
@@ -331,7 +423,10 @@ SheetOfBase(b, rf, iv) ==
       sortino_ratio |-> ScaleFig(SortinoCalc(rf, b.mean, b.lossvar, b.n), b.period, T),
       calmar_ratio  |-> IF b.undef THEN FAny
                         ELSE ScaleFig(CalmarCalc(rf, b.mean, b.maxdd, b.n), b.period, T)]
-RatioSheet(h, rf, iv) == SheetOfBase(Base(h), rf, iv)
+RatioSheet(h, rf, iv)  == SheetOfBase(Base(h), rf, iv)                               \* on the reading of the code
+RatioSheetR(h, rd, rf, iv) == SheetOfBase(ViewOf(BaseAll(h), rd), rf, iv)
+\* the sheets generate(rf, iv) may report for the history h
+RatioSheets(h, rf, iv) == LET B == BaseAll(h) IN {SheetOfBase(ViewOf(B, rd), rf, iv) : rd \in ReadingsOf(B)}
 
 \* which row of the convention tables a figure comes from (coverage of the tables, signatures)
 SignName(ex) == IF IsPos(ex) THEN "pos" ELSE IF IsNeg(ex) THEN "neg" ELSE "zero"
@@ -424,22 +519,28 @@ AddClosed(i, pnl, cost, t) ==
   /\ AddClosedH(i, pnl, cost, t)
   /\ acc'    = [acc EXCEPT ![i] = AccUpd(@, Pos(pnl, cost, t))]
 
-AddBalance(a, total) ==
-  /\ bal'  = [bal EXCEPT ![a] = Append(@, total)]
+AddBalance(a, total, free) ==
+  /\ bal'  = [bal EXCEPT ![a] = Append(@, BalOf(total, free))]
   /\ out'  = <<>>
-  /\ last' = Ev("AddBalance", a, total, 0)
+  /\ last' = Ev("AddBalance", a, total, free)
   /\ UNCHANGED <<closed, acc, vals, wf>>
 
 \* the summary generate(rf, iv) returns: the sheets above plus, per instrument, the ratio figures
-FullSummary(cl, bl, rf, iv) ==
+\* rd: the reading of open points 4 and 5 each instrument's sheet is generated on
+FullSummary(cl, bl, rf, iv, rd) ==
   LET S == SummaryOf(cl, bl)
   IN [rf |-> rf, iv |-> iv, instruments |-> S.instruments, assets |-> S.assets,
-      ratios |-> [i \in Instr |-> RatioSheet(cl[i], rf, iv)]]
+      returns |-> [i \in Instr |-> ReturnsOf(cl[i])],
+      ratios |-> [i \in Instr |-> RatioSheetR(cl[i], rd[i], rf, iv)]]
 GenerateS(S) ==
   /\ out'  = <<S>>
   /\ last' = Ev("Generate", "", 0, 0)
   /\ UNCHANGED <<closed, acc, bal, vals, wf>>
-Generate(rf, iv) == GenerateS(FullSummary(closed, bal, rf, iv))
+\* (the nondeterministic choice of open points 4 and 5: one reading per instrument sheet; the choices
+\*  give the same summary unless that instrument's history has a late exit)
+Generate(rf, iv) == LET L == {i \in Instr : HasLate(closed[i])}
+                    IN \E rl \in [L -> Readings] :
+                          GenerateS(FullSummary(closed, bal, rf, iv, [i \in Instr |-> IF i \in L THEN rl[i] ELSE CodeReading]))
 
 \* a new session of instrument i: TearSheetGenerator::reset
 ResetH(i) ==
@@ -462,7 +563,7 @@ Persist ==
 
 AddClosedAny  == \E i \in Instr, p \in PnLs, c \in Costs, g \in Gaps :
                     NClosed < MaxClosed /\ AddClosed(i, p, c, LastT(closed[i]) + g)
-AddBalanceAny == \E a \in Asset, b \in Bals : NBal < MaxBal /\ AddBalance(a, b)
+AddBalanceAny == \E a \in Asset, b \in BalPairs : NBal < MaxBal /\ AddBalance(a, b[1], b[2])
 GenerateAny   == out = <<>> /\ \E rf \in RFs, iv \in Ivs : Generate(rf, iv)
 ResetAny      == \E i \in Instr : closed[i] # <<>> /\ Reset(i)
 AddValueAny   == \E x \in Vals : Len(vals) < MaxVals /\ AddValue(x)
@@ -485,8 +586,8 @@ SpecC17 == Init /\ [][NextC17]_vars
 (* C16 formulas                                                             *)
 TypeC16 ==
   /\ \A i \in Instr : \A k \in Idx(closed[i]) : closed[i][k].pnl \in PnLs /\ closed[i][k].cost \in Costs
-  /\ \A i \in Instr : \A k \in Idx(closed[i]) : closed[i][k].t >= (IF k = 1 THEN 0 ELSE closed[i][k - 1].t)
-  /\ \A a \in Asset : \A k \in Idx(bal[a]) : bal[a][k] \in Bals
+  /\ \A i \in Instr : \A k \in Idx(closed[i]) : closed[i][k].t \in Int        \* any order of the exit times
+  /\ \A a \in Asset : \A k \in Idx(bal[a]) : <<bal[a][k].total, bal[a][k].free>> \in BalPairs
   /\ Len(out) <= 1
 
 \* a store / restore changes no figure, now or later (the figures are functions of the histories)
@@ -498,11 +599,19 @@ PersistIsStutter == [][last'.a = "Persist" =>
 \* a generated summary is the summary of the histories, key by key
 GenerateIsBatch == out # <<>> =>
   /\ \A i \in Instr : out[1].instruments[i] = TearSheet(closed[i])
-  /\ \A i \in Instr : out[1].ratios[i] = RatioSheet(closed[i], out[1].rf, out[1].iv)
+  /\ \A i \in Instr : out[1].returns[i] = ReturnsOf(closed[i])
+  /\ \A i \in Instr : out[1].ratios[i] \in RatioSheets(closed[i], out[1].rf, out[1].iv)
+  /\ \A i \in Instr : ~HasLate(closed[i]) => out[1].ratios[i] = RatioSheet(closed[i], out[1].rf, out[1].iv)
   /\ \A a \in Asset : out[1].assets[a] = AssetSheet(bal[a])
 
 \* the running accumulators with the required arguments give the batch sheet
 AccSheet == \A i \in Instr : SheetOfAcc(acc[i]) = TearSheet(closed[i])
+\* ... and ARE the batch returns summaries (count, sum, running mean; all returns and the losing ones)
+AccReturns == \A i \in Instr :
+  LET a == acc[i]  r == ReturnsOf(closed[i])
+  IN /\ a.n = r.count /\ a.sum = r.sum /\ a.w.mean = r.mean /\ a.w.n = r.count
+     /\ a.ln = r.losses_count /\ a.lsum = r.losses_sum /\ a.lw.mean = r.losses_mean /\ a.lw.n = r.losses_count
+     /\ a.w.mean = MeanRet(closed[i])
 
 WinRateSane == \A i \in Instr :
   LET h == closed[i] w == WinRate(h)
@@ -525,8 +634,19 @@ ProfitFactorSane == \A i \in Instr :
      \* gross profit - gross loss = sum of all returns
      /\ Sub(GrossProfit(h), GrossLoss(h)) = total
 
-\* the figures do not depend on the order in which positions were closed
+\* the figures do not depend on the order in which positions were closed or delivered (a permutation moves
+\* the exit times with the positions: every time order of the same positions) ...
 OrderFreeC16 == \A i \in Instr : \A g \in Perm(closed[i]) : TearSheet(g) = TearSheet(closed[i])
+\* (the returns summaries likewise; a formula of its own - the smaller models check it - because the
+\*  permutations of a long history are many)
+OrderFreeReturns == \A i \in Instr : \A g \in Perm(closed[i]) : ReturnsOf(g) = ReturnsOf(closed[i])
+\* ... nor on the exit times at all
+TimeFreeC16  == \A i \in Instr :
+                   LET h == closed[i]
+                       z == [k \in Idx(h) |-> Pos(h[k].pnl, h[k].cost, 0)]         \* every position closed at the session start
+                       r == [k \in Idx(h) |-> Pos(h[k].pnl, h[k].cost, h[Len(h) + 1 - k].t)]   \* the times in reverse
+                   IN /\ TearSheet(z) = TearSheet(h) /\ ReturnsOf(z) = ReturnsOf(h)
+                      /\ TearSheet(r) = TearSheet(h) /\ ReturnsOf(r) = ReturnsOf(h)
 
 \* an event for key k leaves the sheet of every other key unchanged
 Keyed == [][/\ \A i \in Instr : i # last'.k => TearSheet(closed'[i]) = TearSheet(closed[i])
@@ -534,11 +654,19 @@ Keyed == [][/\ \A i \in Instr : i # last'.k => TearSheet(closed'[i]) = TearSheet
 Additive == [][last'.a = "AddClosed" =>
                PnL(closed'[last'.k]) = PnL(closed[last'.k]) + last'.x]_vars
 LatestBalance == [][last'.a = "AddBalance" =>
-               AssetSheet(bal'[last'.k]) = [has |-> TRUE, total |-> last'.x]]_vars
+               AssetSheet(bal'[last'.k]) = [has |-> TRUE, total |-> last'.x, free |-> last'.y,
+                                            points |-> Len(bal[last'.k]) + 1]]_vars
+\* every accepted snapshot counts: it is the latest balance and one more point of the equity curve, whether the
+\* total moved, only the free part moved, or nothing moved at all
+EveryBalanceCounts == [][last'.a = "AddBalance" =>
+               LET b == bal[last'.k]  s == AssetSheet(bal'[last'.k])
+               IN /\ s.points = AssetSheet(b).points + 1
+                  /\ (b # <<>> /\ b[Len(b)].total = last'.x) => (s.total = AssetSheet(b).total /\ s.free = last'.y)]_vars
 
 \* ---- the ratio figures
-\* the running accumulators with the arguments generate() must pass give the batch figures
-\* (Calmar wherever the batch figure is defined - open point 3)
+\* the running accumulators with the arguments generate() must pass give the batch figures ON THE READING OF
+\* THE CODE (the period ends at the exit delivered last, the curve is the one delivered; Calmar wherever the
+\* batch figure is defined - open point 3)
 AccRatiosS(i, b, rf, iv) ==
   LET r == RatiosOfAcc(acc[i], rf, iv)
   IN /\ r.pnl_return = b.pnl_return /\ r.sharpe_ratio = b.sharpe_ratio /\ r.sortino_ratio = b.sortino_ratio
@@ -557,9 +685,10 @@ SignTable(f, ex, n) ==                  \* zero risk: Sortino, Calmar
   /\ IsPos(ex) => f.k = "MAX"
   /\ IsNeg(ex) => f.k = "MIN"
   /\ (IsZero(ex) /\ n <= 2) => f.k = "num" /\ f.sign = 0 /\ IsZero(f.sq)
-ConventionsS(i, b, s, rf, iv) ==
+\* (rd: the reading b was taken on; s: the sheet of b)
+ConventionsS(i, rd, b, s, rf, iv) ==
   LET h == closed[i]  ex == SubX(b.mean, rf)
-      n == Len(h)  T == IvLen[iv]  p == Period(h)
+      n == Len(h)  T == IvLen[iv]  p == b.period
   IN /\ s.pnl_return.v = b.mean /\ MulX(s.pnl_return.fac, R(p)) = R(T)
      /\ RiskLaw(s.sharpe_ratio, ex, b.var, 0, T, p)
      /\ IsZero(b.var) => s.sharpe_ratio.k = "MAX"
@@ -568,11 +697,19 @@ ConventionsS(i, b, s, rf, iv) ==
      /\ b.undef => s.calmar_ratio = FAny
      /\ ~b.undef => /\ RiskLaw(s.calmar_ratio, ex, Sq(b.maxdd), n, T, p)
                     /\ IsZero(b.maxdd) => SignTable(s.calmar_ratio, ex, n)
-     \* the period: from the session start to the LATEST exit, at least one second
-     /\ p >= 1 /\ (n > 0 /\ h[n].t >= 1 => p = h[n].t) /\ \A k \in Idx(h) : h[k].t <= p
-\* when the risks are zero
-RiskZeroIffB(i, b) ==
-  LET h == closed[i]  c == Curve(h)  rets == {Ret(h[k]) : k \in Idx(h)}
+     \* the period: from the session start to the end of the session, at least one second ...
+     /\ p >= 1
+     \* ... which is the exit delivered last (open point 4, reading "last") ...
+     /\ rd.p = "last" => /\ (n > 0 /\ h[n].t >= 1) => p = h[n].t
+                         /\ (n = 0 \/ h[n].t < 1) => p = 1
+     \* ... or the latest exit delivered (reading "max")
+     /\ rd.p = "max"  => /\ \A k \in Idx(h) : h[k].t <= p
+                         /\ p > 1 => \E k \in Idx(h) : h[k].t = p
+     \* without a late exit: the LATEST exit, which is the last one (as before, on either reading)
+     /\ ~HasLate(h) => (n > 0 /\ h[n].t >= 1 => p = h[n].t) /\ \A k \in Idx(h) : h[k].t <= p
+\* when the risks are zero (c: the curve of the reading)
+RiskZeroIffB(i, rd, b) ==
+  LET h == closed[i]  c == Curve(HistR(h, rd))  rets == {Ret(h[k]) : k \in Idx(h)}
   IN /\ IsZero(b.var)     <=> Cardinality(rets) <= 1
      /\ IsZero(b.lossvar) <=> Cardinality({r \in rets : IsNeg(r)}) <= 1
      /\ Geq(b.var, Zero) /\ Geq(b.lossvar, Zero)
@@ -587,40 +724,70 @@ ScaleLawS(bs, a, rf, iv) == \A iw \in Ivs \ {iv} :
   IN /\ ScaleRor(a.pnl_return, IvLen[iv], IvLen[iw]) = b.pnl_return
      /\ same(a.sharpe_ratio, b.sharpe_ratio) /\ same(a.sortino_ratio, b.sortino_ratio)
      /\ same(a.calmar_ratio, b.calmar_ratio)
-\* the order in which the positions were closed (at the same exit times) does not matter for the
-\* rate of return, Sharpe and Sortino; Calmar depends on the path, the period on the latest exit
-\* (two neighbours exchanged: every history over the same exit times is a state of the model, so
+\* the order in which the positions were closed or delivered does not matter for the rate of return, Sharpe and
+\* Sortino: number, mean and variances - which, with the period, decide the three figures for every rf and
+\* interval (SheetOfBase) - are those of the multiset of returns; Calmar depends on the path.
+\* (two neighbours exchanged: every history over the same positions / exit times is a state of the model, so
 \*  the formula holding in all of them covers every permutation)
+\* SwapPC: the positions change places, the exit times stay where they are: both period readings are kept
 SwapPC(h) == {[k \in Idx(h) |-> LET q == IF k = j THEN j + 1 ELSE IF k = j + 1 THEN j ELSE k
                                 IN Pos(h[q].pnl, h[q].cost, h[k].t)] : j \in 1..(Len(h) - 1)}
-OrderFreeRatiosB(i, bs) == \A g \in SwapPC(closed[i]) :
-  \* (number, mean, variances and period decide the three figures, for every rf and interval: SheetOfBase)
-  /\ Len(g) = bs.n /\ MeanRet(g) = bs.mean /\ VarRet(g) = bs.var /\ LossVarRet(g) = bs.lossvar /\ Period(g) = bs.period
-\* (one evaluation of Base per instrument and state serves all the laws)
-\* the laws as separate formulas ...
-PerSheet(L(_, _, _, _, _)) == \A i \in Instr : LET bs == Base(closed[i])
-                             IN \A rf \in RFs, iv \in Ivs : L(i, bs, SheetOfBase(bs, rf, iv), rf, iv)
-AccRatios       == PerSheet(LAMBDA i, bs, s, rf, iv : AccRatiosS(i, s, rf, iv))
-Conventions     == PerSheet(LAMBDA i, bs, s, rf, iv : ConventionsS(i, bs, s, rf, iv))
-ScaleLaw        == PerSheet(LAMBDA i, bs, s, rf, iv : ScaleLawS(bs, s, rf, iv))
-RiskZeroIff     == \A i \in Instr : RiskZeroIffB(i, Base(closed[i]))
-OrderFreeRatios == \A i \in Instr : OrderFreeRatiosB(i, Base(closed[i]))
+\* SwapRec: two positions are DELIVERED in the other order (each with its own exit time): the latest exit is
+\* kept (the exit delivered last is not), and so is the chronological curve when their times differ
+SwapRec(h, j) == [k \in Idx(h) |-> h[IF k = j THEN j + 1 ELSE IF k = j + 1 THEN j ELSE k]]
+OrderFreeRatiosB(i, B) ==
+  LET h == closed[i]
+      same(g) == Len(g) = B.n /\ MeanRet(g) = B.mean /\ VarRet(g) = B.var /\ LossVarRet(g) = B.lossvar
+  IN /\ \A g \in SwapPC(h) : same(g) /\ PeriodOf(LastT(g)) = B.pL /\ PeriodOf(MaxT(g)) = B.pM
+     /\ \A j \in 1..(Len(h) - 1) :
+          LET g == SwapRec(h, j)
+          IN /\ same(g) /\ PeriodOf(MaxT(g)) = B.pM /\ ReturnsOf(g) = ReturnsOf(h)
+             /\ h[j].t # h[j + 1].t => Chrono(g) = Chrono(h)
+\* a history without a late exit has ONE sheet: the four readings coincide (nothing of open points 4 and 5
+\* touches it); the chronological order is a rearrangement of the history, the history itself when nothing is late
+MonotoneDeterminedB(i, B) ==
+  LET h == closed[i]  c == Chrono(h)
+  IN /\ ~B.late => \A rd \in Readings : ViewOf(B, rd) = ViewOf(B, CodeReading)
+     /\ ~B.late => c = h /\ LastT(h) = MaxT(h)
+     /\ B.late <=> \E k \in Idx(h), j \in Idx(h) : j < k /\ h[j].t > h[k].t
+     /\ Len(c) = Len(h) /\ ~HasLate(c) /\ MaxT(c) = MaxT(h) /\ LastT(c) = MaxT(h)
+     /\ \A x \in {h[k] : k \in Idx(h)} : Cardinality({k \in Idx(h) : h[k] = x}) = Cardinality({k \in Idx(c) : c[k] = x})
+     /\ B.pM >= B.pL /\ (LastT(h) = MaxT(h) => B.pL = B.pM)
+\* (one evaluation of BaseAll per instrument and state serves all the laws)
+\* the laws as separate formulas, on every reading that can differ ...
+PerSheet(L(_, _, _, _, _, _)) ==
+  \A i \in Instr : LET B == BaseAll(closed[i])
+                   IN \A rd \in ReadingsOf(B) : LET bs == ViewOf(B, rd)
+                                                IN \A rf \in RFs, iv \in Ivs : L(i, rd, bs, SheetOfBase(bs, rf, iv), rf, iv)
+AccRatios       == PerSheet(LAMBDA i, rd, bs, s, rf, iv : rd = CodeReading => AccRatiosS(i, s, rf, iv))
+Conventions     == PerSheet(LAMBDA i, rd, bs, s, rf, iv : ConventionsS(i, rd, bs, s, rf, iv))
+ScaleLaw        == PerSheet(LAMBDA i, rd, bs, s, rf, iv : ScaleLawS(bs, s, rf, iv))
+RiskZeroIff     == \A i \in Instr : LET B == BaseAll(closed[i]) IN \A rd \in ReadingsOf(B) : RiskZeroIffB(i, rd, ViewOf(B, rd))
+OrderFreeRatios == \A i \in Instr : OrderFreeRatiosB(i, BaseAll(closed[i]))
+MonotoneDetermined == \A i \in Instr : MonotoneDeterminedB(i, BaseAll(closed[i]))
 \* ... and as ONE invariant for the model checker (TLC does not remember the value of an operator
-\* application: one evaluation of Base per instrument and of the sheet per (rf, iv) serves all)
+\* application: one evaluation of BaseAll per instrument and of the sheet per (reading, rf, iv) serves all)
 RatioLaws == \A i \in Instr :
-  LET bs == Base(closed[i])
-  IN /\ RiskZeroIffB(i, bs) /\ OrderFreeRatiosB(i, bs)
-     /\ \A rf \in RFs, iv \in Ivs :
-          LET s == SheetOfBase(bs, rf, iv)
-          IN AccRatiosS(i, s, rf, iv) /\ ConventionsS(i, bs, s, rf, iv) /\ ScaleLawS(bs, s, rf, iv)
-\* an event for key k leaves every ratio figure of every other key unchanged
+  LET B == BaseAll(closed[i])
+  IN /\ OrderFreeRatiosB(i, B) /\ MonotoneDeterminedB(i, B)
+     /\ \A rd \in ReadingsOf(B) :
+          LET bs == ViewOf(B, rd)
+          IN /\ RiskZeroIffB(i, rd, bs)
+             /\ \A rf \in RFs, iv \in Ivs :
+                  LET s == SheetOfBase(bs, rf, iv)
+                  IN /\ rd = CodeReading => AccRatiosS(i, s, rf, iv)
+                     /\ ConventionsS(i, rd, bs, s, rf, iv) /\ ScaleLawS(bs, s, rf, iv)
+\* an event for key k leaves every ratio figure of every other key unchanged, on every reading
 KeyedRatios == [][\A i \in Instr : i # last'.k =>
-                    LET a == Base(closed[i])  b == Base(closed'[i])
-                    IN \A rf \in RFs, iv \in Ivs : SheetOfBase(b, rf, iv) = SheetOfBase(a, rf, iv)]_vars
-\* a reset starts a new session: the sheet of the empty history, whatever was closed before
+                    LET A == BaseAll(closed[i])  B == BaseAll(closed'[i])
+                    IN /\ A = B
+                       /\ \A rd \in ReadingsOf(A), rf \in RFs, iv \in Ivs :
+                             SheetOfBase(ViewOf(B, rd), rf, iv) = SheetOfBase(ViewOf(A, rd), rf, iv)]_vars
+\* a reset starts a new session: the sheet of the empty history, whatever was closed before - late exits included
 ResetIsFresh == [][last'.a = "Reset" =>
                      /\ closed'[last'.k] = <<>> /\ acc'[last'.k] = Acc0
-                     /\ \A rf \in RFs, iv \in Ivs : RatiosOfAcc(acc'[last'.k], rf, iv) = RatioSheet(<<>>, rf, iv)
+                     /\ \A rf \in RFs, iv \in Ivs : /\ RatiosOfAcc(acc'[last'.k], rf, iv) = RatioSheet(<<>>, rf, iv)
+                                                    /\ RatioSheets(closed'[last'.k], rf, iv) = {RatioSheet(<<>>, rf, iv)}
                      /\ \A i \in Instr : i # last'.k => closed'[i] = closed[i] /\ acc'[i] = acc[i]]_vars
 
 -----------------------------------------------------------------------------
